@@ -137,7 +137,7 @@ def one_connect(sess, cfg, maxdata, strays, stats, rng, real_keys=None):
     pkts = [p for (_, p) in sim.host_log[nlog:]]
     events = [e for e in sim.auth_log[nauth:]]
     # ---------------------------------------------------------------- the model of the expected host behaviour
-    exp = [("CNXN", wire.A_VERSION, wire.HOST_MAXDATA, b"host::" + b"verif" + b"\0")]
+    exp = [("CNXN", wire.A_VERSION, wire.HOST_MAXDATA, b"host::" + getattr(sess, "expected_banner", b"verif") + b"\0")]
     stats["rechallenges_after_pubkey"] += sum(1 for e in events if e[0] == "dev_rechallenge")
     tokens = [e[3] for e in events if e[0] == "dev_challenge"]
     challenge_arg0 = [e[2] for e in events if e[0] == "dev_challenge"]
@@ -276,7 +276,11 @@ def run_case(case):
     rng = gen.rng_for("C05", case["seed"])
     stats = {"connects": 0, "signatures_checked": 0, "pubkey_offers": 0, "auth_timeout_reads": 0, "second_connects": 0, "pushes_after_connect": 0, "real_rsa_cases": 0, "rechallenges_after_pubkey": 0}
     sim = simdev.SimDevice(rng=gen.rng_for("C05sim", case["seed"]), maxdata=case["maxdata"], remote_ids="random")
-    sess = session.Session(case["impl"], sim=sim)
+    bkind = rng.choice(["bytes", "bytes", "str", "bytearray", "none"])
+    banner = {"bytes": b"verif", "str": "verif-\u00e9", "bytearray": bytearray(b"verif-ba"), "none": None}[bkind]
+    sess = session.Session(case["impl"], sim=sim, banner=banner)
+    import socket
+    sess.expected_banner = {"bytes": b"verif", "str": "verif-\u00e9".encode("utf8"), "bytearray": b"verif-ba", "none": (socket.gethostname() or "unknown").encode("utf8")}[bkind]
     viol = []
     try:
         real = None
